@@ -89,9 +89,15 @@ CHECKS = {
          'family circuits x all {0,1,R,F} stimuli x delay plans x capacities, each run under every combination of c_reuse/strip_forks/CPU-vs-GPU-kernel path, four lane allocations, '
          'lane permutations, c_prop(sims=k), global and per-lane delay dataset selection and a_ctrl, and compared bit for bit with a baseline run; LogicSim options for m = 2/4/8 on all stimuli',
          'trusted: baseline configuration is tied to the reference by C01-C03; GPU path = kernels under MockCuda', 'DESIGN.md section 4 C06'),
+
+ 'C07': ('model_checking', 'schedule exploration: all per-level op permutations and GPU thread orders on the real code + logged-access conflict detection',
+         'for every circuit/config/level, every permutation of the level (n! up to 6 ops, generating set above) is executed through the real LogicSim and WaveSim level code and every '
+         'order of the effective (lane, op) threads of each GPU launch (n! up to 6 threads) through the real kernel under a controlled launcher, comparing the memory image after the level; '
+         'read/write sets of all threads are logged and checked pairwise for conflicts, which extends the result to instruction-level interleavings; plus the static partition check',
+         'trusted: compositional and independence arguments stated in the evidence assumptions; Python semantics of the kernels (no real CUDA memory model)', 'DESIGN.md section 4 C07'),
 }
 
-NOT_YET = 'check not built yet in this session (see DESIGN.md build order); will be claimed once its exhaustive check exists'
+NOT_YET = 'check under construction in this session (see DESIGN.md build order); will be claimed once its exhaustive check exists'
 
 
 def main():
